@@ -23,8 +23,9 @@ ScaledVar(a, e, n) == LET s1 == Reduce("add", a, e.args.axis, <<>>, Keep(e))  s2
                       IN IF ~s1.ok THEN Nothing ELSE [s1 EXCEPT !.elems = [q \in 1..Len(s1.elems) |-> n * s2.elems[q] - s1.elems[q] * s1.elems[q]]]
 WithDtype(r, f) == IF r.ok THEN [dtype |-> IF IsPredicate(f) THEN "bool" ELSE IF IsFloatValued(f) THEN "float" ELSE "int"] @@ r ELSE r
 
-Expect(e) ==
-    LET a == Operand(e, 1) IN    \* generators have no operand (shapes = <<>>)
+\* the meaning of one operation event applied to the first operand value a (programs thread intermediate values through it)
+RECURSIVE RunProg(_, _, _)
+ExpectWith(e, a) ==
     CASE e.op = "reshape"     -> Reshape(a, e.args.dst)
       [] e.op = "flatten"     -> Flatten(a)
       [] e.op = "transpose"   -> Transpose(a, e.args.axes)
@@ -116,4 +117,8 @@ Expect(e) ==
             IF r[1] THEN [ok |-> TRUE, shape |-> [j \in 1..Len(e.shapes) |-> r[2]],
                           elems |-> [j \in 1..Len(e.shapes) |-> BroadcastTo(Operand(e, j), r[2]).elems]]
             ELSE Nothing
+      \* C10: a program is a chain of steps over a leaf; Nothing propagates
+      [] e.op = "program" -> LET v == RunProg(e.prog, 1, a) IN [ok |-> v.ok, shape |-> v.shape, elems |-> v.elems]
+RunProg(prog, k, v) == IF k > Len(prog) \/ ~v.ok THEN v ELSE RunProg(prog, k + 1, ExpectWith(prog[k], v))
+Expect(e) == ExpectWith(e, Operand(e, 1))    \* generators have no operand (shapes = <<>>)
 =================================================================================
